@@ -491,6 +491,49 @@ Proof.
     eapply (vp_next_committee _ _ _ _ _ V); eassumption.
 Qed.
 
+(* ---- the wire entry points, per fork container type: every case of the three type switches yields exactly the
+   intended shape (so header and branch always travel together), any other type is an error *)
+Lemma wire_converters_exact f att next nbr fin fbr bits sg slot :
+  (forall u, from_light_client_update f att next nbr fin fbr bits sg slot = Ok u ->
+             u = from_update att next nbr fin fbr bits sg slot) /\
+  (forall u, from_light_client_finality_update f att fin fbr bits sg slot = Ok u ->
+             u = from_finality_update att fin fbr bits sg slot) /\
+  (forall u, from_light_client_optimistic_update f att bits sg slot = Ok u ->
+             u = from_optimistic_update att bits sg slot) /\
+  (f <> WOther ->
+     from_light_client_update f att next nbr fin fbr bits sg slot <> Err E_UNKNOWN_TYPE /\
+     from_light_client_finality_update f att fin fbr bits sg slot <> Err E_UNKNOWN_TYPE /\
+     from_light_client_optimistic_update f att bits sg slot <> Err E_UNKNOWN_TYPE).
+Proof.
+  repeat split; try (intros u H; destruct f; inversion H; reflexivity); destruct f; try discriminate; congruence.
+Qed.
+
+(* what a successful VerifyUpdate / VerifyFinalityUpdate establishes about the WIRE object's own fields,
+   for every fork container type: the branch clauses are unconditional *)
+Theorem verify_wire_update_sound f s att next nbr fin fbr bits sg slot now genesis fv :
+  verify_wire s (from_light_client_update f att next nbr fin fbr bits sg slot) now genesis fv = Ok tt ->
+  branch_holds (htr_header fin) FIN_DEPTH FIN_INDEX (h_state att) /\
+  branch_holds (c_root next) NEXT_DEPTH NEXT_INDEX (h_state att) /\
+  verify_post s (from_update att next nbr fin fbr bits sg slot) now genesis fv.
+Proof.
+  unfold verify_wire. destruct (from_light_client_update f att next nbr fin fbr bits sg slot) as [u| |] eqn:E; cbn [bind]; try discriminate.
+  apply (proj1 (wire_converters_exact f att next nbr fin fbr bits sg slot)) in E. subst u. intros V.
+  pose proof (verify_sound _ _ _ _ _ V) as P.
+  split; [exact (vp_finality _ _ _ _ _ P fin fbr eq_refl eq_refl)|].
+  split; [exact (vp_next_committee _ _ _ _ _ P next nbr eq_refl eq_refl) | exact P].
+Qed.
+
+Theorem verify_wire_finality_sound f s att fin fbr bits sg slot now genesis fv :
+  verify_wire s (from_light_client_finality_update f att fin fbr bits sg slot) now genesis fv = Ok tt ->
+  branch_holds (htr_header fin) FIN_DEPTH FIN_INDEX (h_state att) /\
+  verify_post s (from_finality_update att fin fbr bits sg slot) now genesis fv.
+Proof.
+  unfold verify_wire. destruct (from_light_client_finality_update f att fin fbr bits sg slot) as [u| |] eqn:E; cbn [bind]; try discriminate.
+  assert (U : u = from_finality_update att fin fbr bits sg slot) by (destruct f; inversion E; reflexivity).
+  subst u. intros V. pose proof (verify_sound _ _ _ _ _ V) as P.
+  split; [exact (vp_finality _ _ _ _ _ P fin fbr eq_refl eq_refl) | exact P].
+Qed.
+
 (* ---- the number of participating keys is the bit count *)
 Lemma part_keys_count keys bits : forall n i acc r pks,
   count_bits n i bits acc = Ok r -> part_keys n i keys bits = Ok pks -> r = acc + N.of_nat (length pks).
